@@ -19,9 +19,16 @@ Inductive he_mode :=
 | HeAssignNeg     (* ... = !handler.has_catch_block() *)
 | HeClearOnCatch  (* only `if a catch clause takes it { handling_exception = false }`: the raise sites must set it *)
 | HeKeep.         (* untouched *)
+(* emit_exc_handler_pops, called by break and continue for the try blocks the jump leaves *)
+Inductive pops_mode :=
+| PopsAll    (* one PopExcHandler per try block being left: `for _ in try_depth..self.try_depth`   (today) *)
+| PopsOne    (* at most one, however many try blocks are left: `if self.try_depth > try_depth` *)
+| PopsNone.  (* none (the emitters before 67f0548) *)
+Definition npops (m : pops_mode) (n : nat) : nat :=
+  match m with PopsAll => n | PopsOne => Nat.min 1 n | PopsNone => 0 end.
 Record cfg := {
   catch_emits_pop : bool;          (* try_statement: the catch block starts with PopExcHandler   (today: false) *)
-  break_pops_handlers : bool;      (* break/continue: one PopExcHandler per try block being left (today: true) *)
+  break_pops : pops_mode;          (* break/continue: handlers popped for the try blocks being left (today: PopsAll) *)
   return_uses_jump_finally : bool; (* return inside a try block: e; JumpFinally; Return          (today: true) *)
   unwind_he : he_mode;             (* unwind_stack                                               (today: HeAssign) *)
   throw_sets_he : bool;            (* throw_impl sets handling_exception before unwinding        (today: true) *)
@@ -31,19 +38,22 @@ Record cfg := {
 (* today's emitters and unwind_stack; while unwind_stack DERIVES the flag, which raise sites set it first is
    immaterial: the theorems are proved for every choice *)
 Definition cfg_assign (ts vs ns : bool) : cfg :=
-  {| catch_emits_pop := false; break_pops_handlers := true; return_uses_jump_finally := true; unwind_he := HeAssign;
+  {| catch_emits_pop := false; break_pops := PopsAll; return_uses_jump_finally := true; unwind_he := HeAssign;
      throw_sets_he := ts; vmfail_sets_he := vs; nativefail_sets_he := ns |}.
 Definition cfg_today : cfg := cfg_assign true false false.
 Definition cfg_old_catch_pops : cfg :=
-  {| catch_emits_pop := true; break_pops_handlers := true; return_uses_jump_finally := true; unwind_he := HeAssign;
+  {| catch_emits_pop := true; break_pops := PopsAll; return_uses_jump_finally := true; unwind_he := HeAssign;
      throw_sets_he := true; vmfail_sets_he := false; nativefail_sets_he := false |}.
 Definition cfg_old_break : cfg :=
-  {| catch_emits_pop := false; break_pops_handlers := false; return_uses_jump_finally := true; unwind_he := HeAssign;
+  {| catch_emits_pop := false; break_pops := PopsNone; return_uses_jump_finally := true; unwind_he := HeAssign;
      throw_sets_he := true; vmfail_sets_he := false; nativefail_sets_he := false |}.
 (* a variant in which only SOME raise sites set the flag that unwind_stack no longer derives: the exception of the
    other sites is dropped by EndFinally (the shape of a plausible refactoring; see native_site_needs_flag) *)
+Definition cfg_break_pops_one : cfg :=
+  {| catch_emits_pop := false; break_pops := PopsOne; return_uses_jump_finally := true; unwind_he := HeAssign;
+     throw_sets_he := true; vmfail_sets_he := false; nativefail_sets_he := false |}.
 Definition cfg_flag_at_sites_but_native : cfg :=
-  {| catch_emits_pop := false; break_pops_handlers := true; return_uses_jump_finally := true; unwind_he := HeClearOnCatch;
+  {| catch_emits_pop := false; break_pops := PopsAll; return_uses_jump_finally := true; unwind_he := HeClearOnCatch;
      throw_sets_he := true; vmfail_sets_he := true; nativefail_sets_he := false |}.
 
 Definition FRAMES_MAX : nat := 64.
@@ -90,7 +100,7 @@ Section Compile.
     | Break | Continue =>
         match lp with
         | None => 0
-        | Some (ln, lt) => (if break_pops_handlers K then tr - lt else 0) + (nloc - ln) + 1
+        | Some (ln, lt) => npops (break_pops K) (tr - lt) + (nloc - ln) + 1
         end
     | IfIter _ s => 5 + size nloc tr intry lp s
     | Loop _ b => 8 + size (S nloc) tr intry (Some (S nloc, tr)) b
@@ -121,7 +131,7 @@ Section Compile.
 
   Definition exits (c : cctx) (l : loopinfo) : list instr :=
     (* emit_exc_handler_pops(try_depth) ; emit_scope_end(false, scope_depth) *)
-    repeat IPopExcHandler (if break_pops_handlers K then c_try c - l_try l else 0)
+    repeat IPopExcHandler (npops (break_pops K) (c_try c - l_try l))
     ++ repeat IPop (c_nloc c - l_nloc l).
 
   Fixpoint compile (c : cctx) (pc : nat) (s : stmt) : list instr :=
